@@ -11,3 +11,5 @@ for id in "$@"; do
 done
 git -C /repo checkout -- .
 python3 /verif/tools/regen.py /repo /verif/coq/Guards.v /verif/.build/regen.json >/dev/null
+# restore the evidence files from clean-tree runs (evidence written while a patch was applied must never be committed)
+for id in "$@"; do ./check $id quick >/dev/null 2>&1; done
